@@ -19,6 +19,11 @@ let parse_hact (t : string) : Lifecycle.hact =
 
 let parse_hooks s = if s = "-" then [] else Stdlib.List.map parse_hact (split_on '.' s)
 
+let parse_cause c : Lifecycle.cause = match c with
+  | "close" -> Lifecycle.CleanClose | "loss" -> Lifecycle.SocketLoss | "text" | "big" -> Lifecycle.ProtocolViolation
+  | "malformed" -> Lifecycle.Malformed | "hpanic" -> Lifecycle.HandlerPanic | "cancel" -> Lifecycle.EmbedderCancel
+  | "abort" -> Lifecycle.DrainAbort | c -> failwith ("bad cause " ^ c)
+
 let parse_case f : Lifecycle.scenario =
   { Lifecycle.s_mode = (match get f "mode" with "l" -> Lifecycle.MListener | "d" -> Lifecycle.MDrain | "s" -> Lifecycle.MServeConn | "a" -> Lifecycle.MAdopt | m -> failwith ("bad mode " ^ m));
     s_hs = (get f "hs" = "ok");
@@ -29,15 +34,13 @@ let parse_case f : Lifecycle.scenario =
     s_xh = parse_hooks (get f "xh");
     s_dpre = nat_of_int (int_of_hex (get f "dpre"));
     s_dpost = nat_of_int (int_of_hex (get f "dpost"));
-    s_cause = (match get f "cause" with
-      | "close" -> Lifecycle.CleanClose | "loss" -> Lifecycle.SocketLoss | "text" | "big" -> Lifecycle.ProtocolViolation
-      | "malformed" -> Lifecycle.Malformed | "hpanic" -> Lifecycle.HandlerPanic | "cancel" -> Lifecycle.EmbedderCancel
-      | "abort" -> Lifecycle.DrainAbort | c -> failwith ("bad cause " ^ c));
+    s_cause = parse_cause (get f "cause");
     s_phase = (match get f "phase" with
       | "idle" -> Lifecycle.PIdle | "inline" -> Lifecycle.PInline | "offr" -> Lifecycle.POffReader | "queue" -> Lifecycle.PQueue
       | "hooks" -> Lifecycle.PHooks | p -> failwith ("bad phase " ^ p));
     s_reqs = n_of_hex (get f "reqs");
-    s_flood = n_of_hex (get f "flood") }
+    s_flood = n_of_hex (get f "flood");
+    s_sibling = false }
 
 let bit s = match s with "0" -> false | "1" -> true | _ -> failwith ("bad bit " ^ s)
 
@@ -63,6 +66,15 @@ let parse_obs (s : string) : Lifecycle.obs =
       o_seen = (match seen with "na" -> None | "0" -> Some false | "1" -> Some true | _ -> failwith ("bad seen " ^ seen)) }
   | _ -> failwith ("bad observation " ^ trunc s)
 
+(* "disc:present:aliases:seen:answered" of a survivor, plus the case-wide token / new-connection bits *)
+let parse_mid (s : string) (tok : bool) (fresh : bool) : Lifecycle.mobs =
+  match split_on ':' s with
+  | [d; p; a; seen; ans] ->
+    { Lifecycle.m_disc = n_of_hex d; m_present = bit p; m_aliases = n_of_hex a;
+      m_seen = (match seen with "na" -> None | "0" -> Some false | "1" -> Some true | _ -> failwith ("bad seen " ^ seen));
+      m_alive = bit ans; m_trigger = tok; m_new = fresh }
+  | _ -> failwith ("bad mid observation " ^ trunc s)
+
 (* which part differs, for the report *)
 let diff_fields (m : Lifecycle.obs) (i : Lifecycle.obs) =
   let part name m' i' = if Lifecycle.c15_obs_match m' i' then [] else [name] in
@@ -74,12 +86,21 @@ let diff_fields (m : Lifecycle.obs) (i : Lifecycle.obs) =
 
 let step _ cs os =
   let f = fields cs and o = fields os in
-  let sc = parse_case f in
+  let sc0 = parse_case f in
   let conns = int_of_hex (get f "conns") in
+  let stag = (get_opt f "stag" = Some "1") in
+  (* staggered: connection 0 ends alone while idle; the others survive in the phase until cause2 *)
+  let sc_first = if stag then { sc0 with Lifecycle.s_phase = Lifecycle.PIdle } else sc0 in
+  let sc = if stag then { sc0 with Lifecycle.s_cause = parse_cause (get f "cause2"); s_sibling = true } else sc0 in
   let out = ref [] in
-  if not (Lifecycle.c15_wf sc) then out := "BAD\tside=model\tclause=case-not-wellformed" :: !out;
+  if not (Lifecycle.c15_wf sc) || not (Lifecycle.c15_wf sc_first) then out := "BAD\tside=model\tclause=case-not-wellformed" :: !out;
   let model = Lifecycle.model_C15 sc in
-  if not (Lifecycle.ok_C15 sc model) then out := "BAD\tside=model\tclause=ok_C15(model)=false" :: !out;
+  let model_first = Lifecycle.model_C15 sc_first in
+  if not (Lifecycle.ok_C15 sc model) || not (Lifecycle.ok_C15 sc_first model_first) then out := "BAD\tside=model\tclause=ok_C15(model)=false" :: !out;
+  if stag then begin
+    if not (Lifecycle.c15_stag_wf sc) then out := "BAD\tside=model\tclause=staggered-case-not-wellformed" :: !out;
+    if not (Lifecycle.ok_mid sc (Lifecycle.model_mid sc)) then out := "BAD\tside=model\tclause=ok_mid(model)=false" :: !out
+  end;
   (match get_opt o "crash" with
    | Some c -> out := ("BAD\tside=impl\tclause=crash:" ^ c) :: !out
    | None ->
@@ -96,11 +117,24 @@ let step _ cs os =
        | None -> continue := false
        | Some s ->
          let impl = parse_obs s in
-         if not (Lifecycle.ok_C15 sc impl) then out := (Printf.sprintf "BAD\tside=impl\tclause=ok_C15:c%d" !k) :: !out;
-         if not (Lifecycle.c15_obs_match model impl) then
-           out := (Printf.sprintf "DIFF\tfields=c%d:%s" !k (String.concat "," (diff_fields model impl))) :: !out;
+         let (sck, mk) = if stag && !k = 0 then (sc_first, model_first) else (sc, model) in
+         if not (Lifecycle.ok_C15 sck impl) then out := (Printf.sprintf "BAD\tside=impl\tclause=ok_C15:c%d" !k) :: !out;
+         if not (Lifecycle.c15_obs_match mk impl) then
+           out := (Printf.sprintf "DIFF\tfields=c%d:%s" !k (String.concat "," (diff_fields mk impl))) :: !out;
          incr k
      done;
+     if stag then begin
+       let tok = bit (get o "tok") and fresh = bit (get o "new") in
+       let mm = Lifecycle.model_mid sc in
+       for j = 1 to conns - 1 do
+         match get_opt o (Printf.sprintf "m%d" j) with
+         | None -> out := (Printf.sprintf "DIFF\tfields=m%d:missing" j) :: !out
+         | Some s ->
+           let mi = parse_mid s tok fresh in
+           if not (Lifecycle.ok_mid sc mi) then out := (Printf.sprintf "BAD\tside=impl\tclause=ok_mid:m%d" j) :: !out;
+           if not (Lifecycle.mobs_eqb mm mi) then out := (Printf.sprintf "DIFF\tfields=m%d" j) :: !out
+       done
+     end;
      if !k < conns then out := (Printf.sprintf "DIFF\tfields=observations:%d:%d" !k conns) :: !out);
   !out
 
